@@ -6,7 +6,7 @@ import ast
 
 from ..core import Ctx, RuleResult, finding, short, walk_no_nested
 from ..model import AnalysisError, norm
-from ..rules import canv, fresh, inv
+from ..rules import alias, canv, fresh, inv
 from ..rules.util import callee_name, calls_in, cfg_of, dotted, nodes_where, owner_map, renamed
 from ..tables import CANV_EXCEPTIONS, INV_EXCEPTIONS, INV_RENDER_EXCEPTIONS
 
@@ -22,6 +22,7 @@ EXPLANATION = (
     "CanvasCache.invalidate drops the widget's entry and recurses into every saved dependant."
     " Added after seed round 3: (1e) INV-LAYER - state switched inside a render closure and read by an inherited render() that is cached without the focus flag (Text.ignore_focus under Edit) changes only together with _invalidate(); (6) CanvasCache.cleanup drops a widget's _deps entry under exactly the conditions under which it drops its _widgets entry; (7) a size-keyed layout memo is not used in the cases in which the memoised computation consults a child (Columns with PACK columns)."
     " Round 4 triage: (8) HIDDEN-DEP - a render() that can finish without rendering a child it consulted for the layout (Pile item with 0 rows, Columns column without width, trimmed-away Frame header/footer, Overlay over an empty bottom canvas) declares the dependency with set_depends() naming that child's source on the skipping path; (9) INV-RENDER - a render-path method that rewrites state render() reads (Scrollable's position clamped for the size at hand, Edit's view shift, ListBox's offset) reaches _invalidate() - directly, through all its render-path callers, or by the `if self.x != saved: self._invalidate()` idiom - so canvases cached for other sizes do not outlive the value they were rendered from."
+    ' (10) ALIAS: the objects a canvas keeps by reference (rows handed to TextCanvas, the mapping of fill_attr_apply, the list of set_depends) are fresh at every call site or widget attributes whose every store is a private copy and that are never changed in place (before fix 45b9be8 AttrMap.set_attr_map / set_focus_map stored the dictionary of the caller: changing it later altered canvases already cached).'
 )
 NOT_DECIDED = (
     "That cached and fresh renderings are equal for all widget trees and histories (needs the value semantics of rendering); that the cascade reaches the right widgets "
@@ -443,6 +444,7 @@ def run(ctx: Ctx):
         rule_memo_children(ctx),
         canv.run_hidden_dep(p, "C06.8", floor=6),
         inv.run_inv_render_write(p, "C06.9", floor=40, exceptions=INV_RENDER_EXCEPTIONS),
+        alias.run_alias(p, "C06.10", floor=12),
     ]
     return out
 
@@ -450,6 +452,10 @@ def run(ctx: Ctx):
 from ..mutants import Mut  # noqa: E402
 
 MUTANTS = [
+    Mut("attrmap-stores-callers-dict", "urwid/widget/attr_map.py", "AttrMap.set_attr_map", "        self._attr_map = dict(attr_map)\n", "        self._attr_map = attr_map\n", "ALIAS|widget.attr_map.AttrMap.set_attr_map|self._attr_map stores a foreign object"),
+    Mut("focusmap-stores-callers-dict", "urwid/widget/attr_map.py", "AttrMap.set_focus_map", "        self._focus_map = None if focus_map is None else dict(focus_map)\n", "        self._focus_map = focus_map\n", "ALIAS|widget.attr_map.AttrMap.set_focus_map|self._focus_map stores a foreign object"),
+    Mut("attrmap-updated-in-place", "urwid/widget/attr_map.py", "AttrMap.set_attr_map", "        self._attr_map = dict(attr_map)\n", "        self._attr_map.clear()\n        self._attr_map.update(attr_map)\n", "ALIAS|widget.attr_map.AttrMap.set_attr_map|self._attr_map changed in place"),
+    Mut("twin-attrmap-copy-by-display", "urwid/widget/attr_map.py", "AttrMap.set_attr_map", "        self._attr_map = dict(attr_map)\n", "        self._attr_map = {**attr_map}\n", twin=True),
     Mut("set-text-no-invalidate", "urwid/widget/text.py", "Text.set_text", "        self._invalidate()\n", "", "INV|widget.text.Text.set_text"),
     Mut("columns-focus-callback-bypasses-memo", "urwid/widget/columns.py", "Columns.__init__", "self._contents.set_focus_changed_callback(lambda f: self._invalidate())", "self._contents.set_focus_changed_callback(lambda f: super(Columns, self)._invalidate())", "INV-BYPASS|"),
     Mut("pad-bottom-shared-shards", "urwid/canvas.py", "CompositeCanvas.pad_trim_top_bottom", "            if orig_shards is self.shards:\n                self.shards = self.shards.copy()\n", "", "FRESHLIST|canvas.CompositeCanvas.pad_trim_top_bottom"),
